@@ -59,6 +59,7 @@ def plan(tier, seed):
         for mt in MODEL_METRICS[tier]:
             shards.append(("bfs", kind, mt, tier))
             shards.append(("twice", kind, mt, tier))
+        shards.append(("bfs", kind, "log_squared_euclidean", tier, "nonfinite"))
     return shards
 
 
@@ -352,6 +353,7 @@ DATA = {
 }
 
 
+NONFINITE = [False]
 TINY_NEGATIVE = 0.3 - 0.2 - 0.1        # -2.78e-17: what is left of "zero" after ordinary arithmetic
 SIGNED_OK = None
 
@@ -360,6 +362,12 @@ def make_world(seed, metric=None):
     sc = [1.0, 0.5, 2.0, 3.0][seed % 4] if seed else 1.0
     w = {k: (np.array(v, dtype=float) * sc if k.startswith("X") else np.array(v, dtype=int))
          for k, v in DATA.items()}
+    if NONFINITE[0]:
+        # prediction-side matrices may hold non-finite entries; they belong to the caller all the same
+        w["Xq"][1, 0] = np.inf
+        w["Xq"][2, 1] = np.nan
+        w["Xq"][3, 0] = -np.inf
+        w["Xv"][1, 1] = np.inf
     if metric is not None and (metric in axioms.R_CLASS or metric == "canberra"):
         # metrics defined for all reals: some exact zeros of the data become tiny negative values
         for k in ("X", "Xu", "Xv", "Xq"):
@@ -477,7 +485,8 @@ def run_ops(kind, metric, seed, hist, tmpdir, check=True, refs=None):
 
 
 def shard_bfs(shard, seed, res):
-    _, kind, metric, tier = shard
+    _, kind, metric, tier = shard[:4]
+    NONFINITE[0] = len(shard) > 4
     tmpdir = tempfile.mkdtemp(prefix="c07-", dir=scratch_dir())
     try:
         # pristine references: value of each op after the minimal prerequisite
@@ -508,7 +517,8 @@ def shard_bfs(shard, seed, res):
                 if prob:
                     res.violations.append(viol("model-history",
                                                {"part": "bfs", "kind": kind, "metric": metric,
-                                                "history": h2, "seed": seed}, prob, "%s: %s" % (kind, sym)))
+                                                "history": h2, "seed": seed, "nonfinite": NONFINITE[0]},
+                                               prob, "%s: %s" % (kind, sym)))
                     if res.full:
                         return
                     continue
@@ -649,6 +659,7 @@ def shard_twice(shard, seed, res):
 
 def run(shard, seed):
     res = Result()
+    NONFINITE[0] = False
     if shard[0] == "hist":
         shard_hist(shard, seed, res)
     elif shard[0] == "bfs":
@@ -660,6 +671,7 @@ def run(shard, seed):
 
 def replay(case):
     p = case["program"]
+    NONFINITE[0] = False
     seed = int(p.get("seed", 0))
     tmpdir = tempfile.mkdtemp(prefix="c07-", dir=scratch_dir())
     try:
@@ -671,6 +683,7 @@ def replay(case):
             return None
         if p["part"] == "bfs":
             kind, metric, hist = p["kind"], p["metric"], p["history"]
+            NONFINITE[0] = bool(p.get("nonfinite"))
             refs = {}
             op = hist[-1]
             pre = ["fit"] if op in NEEDS_FIT else []
